@@ -11,7 +11,9 @@ The rewrites applied between assertion and search, as functions on terms, for ev
 * `distinct` expansion and the split of numeric equalities keep the value (`C13_distinct_expand`, `C13_eq_split`);
 * the definitions introduced for `div`/`mod` and for term-level `ite` hold exactly when the auxiliary symbols have
   the value of the term they stand for, so they constrain nothing but the fresh symbols
-  (`C13_divmod_axioms`, `C13_ite_definition`).
+  (`C13_divmod_axioms`, `C13_ite_definition`);
+* Boolean flattening of nested conjunctions / disjunctions keeps the value (`C13_flatten_and`, `C13_flatten_or`), and the
+  transitivity fact learnt from a full diamond of equalities is valid (`C13_transitivity_fact_valid`).
 What ties these to the code is the per-check comparison of asserted formulas and engine roots (tools/checks/c13.py).
 -/
 namespace Osmt.Properties
@@ -42,6 +44,15 @@ theorem C13_divmod_axioms (I : Interp) (q r a : Term) (d qi ri ai : Int) (hd : d
 
 theorem C13_ite_definition (I : Interp) (v c a b : Term) (x : Bool) (hc : eval I c = .b x) :
     evalB I (iteDef v c a b) = true ↔ eval I v = eval I (.app .ite [c, a, b]) := iteDef_eval I v c a b x hc
+
+theorem C13_flatten_and (I : Interp) (args : List Term) : eval I (flatten .and args) = eval I (.app .and args) :=
+  flatten_and_eval I args
+theorem C13_flatten_or (I : Interp) (args : List Term) : eval I (flatten .or args) = eval I (.app .or args) :=
+  flatten_or_eval I args
+
+/-- the fact learnt from a full diamond of equalities is valid in every interpretation -/
+theorem C13_transitivity_fact_valid (I : Interp) (x y1 y2 z : Term) : evalB I (diamondFact x y1 y2 z) = true :=
+  diamondFact_valid I x y1 y2 z
 
 /-- non-vacuity: eliminating `x := y + 1` from `x ≤ 3` gives `y + 1 ≤ 3`, and `x` does not occur in `y + 1` -/
 example :
